@@ -132,6 +132,7 @@ open Hive.Proto
 def stepLine (s : St) (toks : List String) : St × String :=
   match toks with
   | ["new", _, _, _] => (init, "ok")
+  | ["new", "default"] => (init, "ok")
   | ["set", k, v] =>
     match k.toNat?, v.toNat? with
     | some k, some v => (set s k v, "ok")
@@ -165,8 +166,10 @@ def stepLine (s : St) (toks : List String) : St × String :=
       (s, if (List.range s.raw.length).any (fun c => randEntry s c == some v) then "member" else "bad")
     | none => (s, "bad-op")
   | "rue" :: n :: vs =>
-    match n.toNat?, parseNats vs with
+    match n.toInt?, parseNats vs with
     | some n, some vs =>
+      -- `count` is a signed int: everything below 1 gives the empty result (`n.toNat` = 0 then)
+      let n := n.toNat
       -- facts that hold for every outcome of the random source: count, distinct, members
       let want := (randUnique s n (List.range s.keys.length)).length
       let vals := s.raw.map (·.2.value)
